@@ -625,11 +625,11 @@ var c02sources = []c02src{
 	{"C02VarSetValue", "var_set_value.go", []string{"varSetValue"}, nil},
 	{"C02PlaceOps", "place_ops.go", []string{"placeAddConst", "placeAddExpr", "placeSubConst", "placeSubExpr", "placeMulConst", "placeMulExpr",
 		"placeQuoConst", "placeQuoExpr", "placeRemConst", "placeRemExpr", "placeAndConst", "placeAndExpr", "placeOrConst", "placeOrExpr",
-		"placeXorConst", "placeXorExpr", "placeAndnotConst", "placeAndnotExpr"}, []string{"setPlace", "setPlaceShift"}},
+		"placeXorConst", "placeXorExpr", "placeAndnotConst", "placeAndnotExpr"}, []string{"setPlace"}},
 	{"C02PlaceShifts", "place_shifts.go", []string{"placeShlConst", "placeShlExpr", "placeShrConst", "placeShrExpr", "placeQuoPow2"}, nil},
 	{"C02PlaceSet", "place_set.go", []string{"placeSetConst", "placeSetExpr"}, []string{"placeSetZero"}},
 	{"C02PlaceSetValue", "place_set_value.go", []string{"placeSetValue"}, nil},
-	{"C02Assignment", "assignment.go", []string{"placeForSideEffects"}, []string{"Assign", "assignPrepareRhs", "assign2", "assignMulti", "assign1", "SetVar", "SetPlace", "dup", "isBlank", "init"}},
+	{"C02Assignment", "assignment.go", []string{"placeForSideEffects"}, []string{"Assign", "assignPrepareRhs", "assign2", "assignMulti", "assign1", "SetVar", "SetPlace", "setPlaceShift", "dup", "isBlank", "init"}},
 	{"C02Statement", "statement.go", nil, []string{"IncDec"}},
 	{"C02Index", "index.go", nil, []string{"vectorPlace", "mapPlace"}},
 }
